@@ -1,6 +1,8 @@
 """C04 — the MPI entry points are correct for every rank count and memory layout.
 Theorems: Properties_C04.v (C04a partition, C04b no deadlock for the signed and the tree variants, C04c minimum basis on
-rank 0 for the fixed code / for agreeing orders modulo the per-index search premise, C04_layout_refuted = D8).
+rank 0 for the fixed code / for agreeing orders modulo the per-index search premise, C04_layout_refuted = D8);
+Properties_C04_trees.v / Properties_C04_trees_tbb.v (the four tree variants, exact per-rank model MpiTreesModel.v: C04c_local_collection,
+premise-free C04c_result_{fvs,iso}_trees[_tbb]_mpi, C04_trace_is_run).
 
 Tie: harness/mpi/c04.cpp runs the five real entry points under a real `mpiexec -n P` (Open MPI + Boost.MPI), many cases per
 MPI job.  Before the graph of a case is built every rank performs a (seed, rank)-dependent allocate/free pattern, so the
@@ -15,6 +17,16 @@ its BFS roots, what it returned/emitted and a DONE marker.  Compared / judged pe
     (…_orig_Z) is run on the recovered per-rank orders;
   * the reduction order of boost::mpi::reduce is re-observed (string concatenation declared commutative) and compared with
     MpiModel.boost_reduce_tree.
+Per-rank tie of the four tree variants (Properties_C04_trees.v, model MpiTreesModel.v): with the hook of
+pending/c04-hook-localmin.patch in the working tree every rank reports (on its stderr, captured per rank by the harness) the
+chunk it received, its candidate vector after the sort and its local minimum in every phase.  For EVERY rank these are compared
+with the extracted model (component `treesmpi`): the chunk exactly; the rebuilt candidate vector as a multiset of
+(tree id, root, edge index, weight); the reported order must be a weight-sorted permutation (mt_sort_Z under the recovered
+arrangement); sequential flavour: every rank's local minimum in every phase EXACTLY (model run under the recovered arrangements
+and Boost's reduction tree), and rank 0's emitted cycles and weight; TBB flavour (real TBB inside every rank): every reported local
+minimum must be accepted by mt_rank_accept_tbb_Z ("a minimum answering local candidate") and the reduction of the reported
+minima along Boost's tree (ties to the right operand) must be what rank 0 emitted.  Without the hook (no VERIF-MPITREES line in
+any rank's stderr) the per-rank comparison is skipped and the evidence says so (per_rank_skipped_no_hook).
 Known finding D8 is decided by behaviour: a wrong answer is a KNOWN-FINDING only if D8 is listed with status "known",
 the entry point is mcb_sva_signed_mpi, P >= 2, the ranks' EORD differ AND the as-found model predicts the implementation's
 answer exactly.  Anything else is a VIOLATION.  With the fix applied the implementation equals the fixed model and the
@@ -23,7 +35,7 @@ import json, os, subprocess, shutil, threading, concurrent.futures as cf
 import lib, gen, mcb_oracle as O, exact_common as X
 
 PID = "C04"
-THEOREMS = ["Properties_C04.v", "Properties_C02_trees.v"]
+THEOREMS = ["Properties_C04.v", "Properties_C04_trees.v", "Properties_C04_trees_tbb.v", "Properties_C02_trees.v"]
 GROUP = "c04"
 HARNESS = dict(name="c04", srcs=["mpi/c04.cpp"], mpi=True, libs=["-ltbb", "-lboost_timer", "-lboost_mpi", "-lboost_serialization"])
 MPIEXEC = ["mpiexec", "--allow-run-as-root", "--oversubscribe", "--bind-to", "none"]
@@ -81,9 +93,29 @@ def run_watchdog(cmd, outfiles, timeout, stall):
     return rc, se
 
 
-def run_batch(exe, P, lines, tag, timeout, threads=1, stall=90):
+def read_traces(op, P):
+    """the hook lines every rank wrote to its (redirected) stderr, per case index of the job: [ {case: [lines]} per rank ], tails"""
+    errs, tails = [], []
+    for r in range(P):
+        try: txt = open("%s.err.%d" % (op, r), errors="replace").read()
+        except OSError: txt = ""
+        per, cur, other = {}, None, []
+        for l in txt.split("\n"):
+            if l.startswith("VERIF-CASE "):
+                try: cur = int(l.split()[1]); per[cur] = []
+                except (ValueError, IndexError): cur = None
+            elif l.startswith("VERIF-MPITREES "):
+                if cur is not None: per[cur].append(l)
+            elif l.strip():
+                other.append(l)
+        errs.append(per); tails.append(" ".join(other[-4:])[-300:])
+    return errs, tails
+
+
+def run_batch(exe, P, lines, tag, timeout, threads=1, stall=90, traces=None):
     """returns (results, runs): results[i] = list of P rank lines | ("HANG"|"CRASH rc", partial rank lines, stderr tail) |
-    ("SKIPPED",..). After a failure the rest of the batch is run in a fresh job."""
+    ("SKIPPED",..). After a failure the rest of the batch is run in a fresh job.
+    traces (a dict, filled if given): case index -> [hook lines of rank r for r in range(P)]"""
     wd = os.path.join(lib.BUILD, "c04run")
     os.makedirs(wd, exist_ok=True)
     results = [None] * len(lines)
@@ -95,8 +127,9 @@ def run_batch(exe, P, lines, tag, timeout, threads=1, stall=90):
         with open(cf_, "w") as f:
             f.write("\n".join(lines[start:]) + "\n")
         for r in range(P):
-            try: os.remove("%s.%d" % (op, r))
-            except OSError: pass
+            for fn in ("%s.%d" % (op, r), "%s.err.%d" % (op, r)):
+                try: os.remove(fn)
+                except OSError: pass
         cmd = MPIEXEC + ["-n", str(P), exe, cf_, op, str(threads)]
         rc, se = run_watchdog(cmd, ["%s.%d" % (op, r) for r in range(P)], timeout, stall)
         outs = []
@@ -112,8 +145,11 @@ def run_batch(exe, P, lines, tag, timeout, threads=1, stall=90):
         for i in range(done):
             if any(o[i].startswith("IMPL-EXCEPTION") for o in outs):
                 done = i; break
+        errs, tails = read_traces(op, P)
+        if any(tails): se = (se or "") + " | ranks' stderr: " + " / ".join(t for t in tails if t)
         for i in range(done):
             results[start + i] = [o[i] for o in outs]
+            if traces is not None: traces[start + i] = [errs[r].get(i, []) for r in range(P)]
         if done == len(lines) - start and rc == 0:
             start = len(lines); break
         if done == len(lines) - start:      # all cases complete but the job did not end cleanly
@@ -135,6 +171,157 @@ def model_lines(graph_tokens, rank_fields, P):
     orig = fixed + "".join(" %d %s" % (len(f.get("EORD", [])), " ".join(f.get("EORD", []))) for f in rank_fields)
     return fixed, orig
 
+
+
+# --------------------------------------------------------------------------------------------------------------
+# per-rank tie of the tree variants (hook lines vs model component `treesmpi`)
+# --------------------------------------------------------------------------------------------------------------
+TREES_CORR = "correspondence c04/treesmpi: MpiTreesModel (mt_local_Z, mt_sort_Z, mt_rank_lookup_seq_Z, mt_rank_accept_tbb_Z, mt_trace_run_Z) vs the per-rank hook lines of mpi/parmcb_sva_trees.hpp"
+
+
+def exact_int(tok, scale):
+    """a weight printed by the hook (double: integer * 2^scale; int: itself) -> the integer the model works with, None if not exact"""
+    try:
+        v = float(tok) * (2.0 ** (-scale))
+    except ValueError:
+        return None
+    return int(v) if v == int(v) and abs(v) < 2 ** 53 else None
+
+
+def parse_hook(lines, scale):
+    """hook lines of ONE rank for ONE case -> {"chunk": [(v,e)], "sorted": [(tree, root, eidx, w)], "local": {k: (exists, w, idx tuple)}} | None"""
+    d = {"chunk": None, "sorted": None, "local": {}, "bad": None}
+    try:
+        for l in lines:
+            t = l.split()
+            kind = t[1]
+            if kind == "CHUNK":
+                n = int(t[3]); d["chunk"] = [(int(t[4 + 2 * i]), int(t[5 + 2 * i])) for i in range(n)]
+                if len(t) != 4 + 2 * n: d["bad"] = "malformed CHUNK line"
+            elif kind == "SORTED":
+                n = int(t[3]); ent = []
+                if len(t) != 4 + 4 * n: d["bad"] = "malformed SORTED line"
+                for i in range(n):
+                    w = exact_int(t[7 + 4 * i], scale)
+                    if w is None: d["bad"] = "recorded weight %s is not an exact multiple of the weight unit" % t[7 + 4 * i]
+                    ent.append((int(t[4 + 4 * i]), int(t[5 + 4 * i]), int(t[6 + 4 * i]), w))
+                d["sorted"] = ent
+            elif kind == "LOCAL":
+                k = int(t[3]); ex = int(t[4]); n = int(t[6])
+                if len(t) != 7 + n: d["bad"] = "malformed LOCAL line"
+                if ex:
+                    w = exact_int(t[5], scale)
+                    if w is None: d["bad"] = "local minimum weight %s is not an exact multiple of the weight unit" % t[5]
+                    d["local"][k] = (1, w, tuple(sorted(int(x) for x in t[7:7 + n])))
+                else:
+                    d["local"][k] = (0, None, ())
+    except (ValueError, IndexError):
+        d["bad"] = "malformed hook line"
+    return d
+
+
+def parse_lres(t, pos):
+    """tokens of a local/global answer of the model at t[pos:] -> ((exists, w, idx tuple) | "ERR", next pos)"""
+    if t[pos] == "ERR": return "ERR", pos + 1
+    if t[pos] == "0": return (0, None, ()), pos + 1
+    w = int(t[pos + 1]); n = int(t[pos + 2])
+    return (1, w, tuple(sorted(int(x) for x in t[pos + 3:pos + 3 + n]))), pos + 3 + n
+
+
+def parse_trees_model(mo):
+    """output of model component treesmpi -> dict, or a string (the model's complaint)"""
+    if not mo.startswith("PAIRS"): return mo.strip()[:200] or "no output"
+    d = {"ranks": {}, "ph": [], "emit": None}
+    try:
+        for sec in mo.split("|"):
+            t = sec.split()
+            if not t: continue
+            if t[0] == "PAIRS":
+                n = int(t[1]); d["pairs"] = [(int(t[2 + 2 * i]), int(t[3 + 2 * i])) for i in range(n)]
+            elif t[0] == "R":
+                r = int(t[1]); n = int(t[3]); chunk = [(int(t[4 + 2 * i]), int(t[5 + 2 * i])) for i in range(n)]
+                pos = 4 + 2 * n; ent = {"chunk": chunk, "cands": None, "sort": None, "err": None}
+                if pos < len(t) and t[pos] == "CANDS":
+                    n2 = int(t[pos + 1]); pos += 2
+                    ent["cands"] = [(int(t[pos + 4 * i]), int(t[pos + 4 * i + 1]), int(t[pos + 4 * i + 2]), int(t[pos + 4 * i + 3])) for i in range(n2)]
+                    pos += 4 * n2
+                    if pos < len(t) and t[pos] == "SORT": ent["sort"] = t[pos + 1]
+                elif pos < len(t):
+                    ent["err"] = t[pos]
+                d["ranks"][r] = ent
+            elif t[0] == "PH":
+                pos = 2; loc = []; glob = None
+                while pos < len(t):
+                    if t[pos] == "L": x, pos = parse_lres(t, pos + 1); loc.append(x)
+                    elif t[pos] == "A": loc.append(t[pos + 1]); pos += 2
+                    elif t[pos] == "G": glob, pos = parse_lres(t, pos + 1)
+                    else: raise ValueError(t[pos])
+                d["ph"].append((loc, glob))
+            elif t[0] == "EMIT":
+                n = int(t[1]); pos = 2; cyc = []
+                for _ in range(n):
+                    k = int(t[pos]); cyc.append(tuple(sorted(int(x) for x in t[pos + 1:pos + 1 + k]))); pos += 1 + k
+                d["emit"] = cyc
+    except (ValueError, IndexError) as ex:
+        return "unparsable model output (%s): %s" % (ex, mo[:160])
+    return d
+
+
+def trees_model_line(alg, gt, roots, picks, P, hooks):
+    """input line of model component treesmpi for one run; hooks = parse_hook of every rank"""
+    flav = "tbb" if alg.endswith("_tbb") else "seq"
+    head = "%s %s %s %d %s %d %s %d" % (alg[:3], flav, gt, len(roots), " ".join(roots), len(picks), " ".join(picks), P)
+    if flav == "seq":
+        return head + "".join(" %d%s" % (len(h["sorted"]), "".join(" %d %d" % (e[0], e[2]) for e in h["sorted"])) for h in hooks)
+    nph = len(hooks[0]["local"])
+    out = [head, str(nph)]
+    for k in range(nph):
+        for h in hooks:
+            ex, w, ix = h["local"].get(k, (0, None, ()))
+            out.append("1 %d %d%s" % (w, len(ix), "".join(" %d" % x for x in ix)) if ex else "0")
+    return " ".join(out)
+
+
+def compare_trees(alg, P, hooks, md, ret, cycles):
+    """every rank's chunk, rebuilt candidate vector, sort order and per-phase local minimum against the model; rank 0's emission.
+    -> None or a description of the first difference"""
+    from collections import Counter
+    tbb = alg.endswith("_tbb")
+    if isinstance(md, str): return "the model fails on this run: " + md
+    for r in range(P):
+        h, m = hooks[r], md["ranks"].get(r)
+        if m is None or m["err"] or m["cands"] is None:
+            return "model: rank %d cannot rebuild its chunk (%s)" % (r, m and m["err"])
+        if h["chunk"] != m["chunk"]:
+            return "rank %d received the chunk %s, the model scatters %s (all pairs: %s)" % (r, h["chunk"], m["chunk"], md.get("pairs"))
+        if Counter(h["sorted"]) != Counter(m["cands"]):
+            return "rank %d rebuilt the candidates (tree id, root, edge index, weight) %s, the model %s" % (r, sorted(h["sorted"]), sorted(m["cands"]))
+        ws = [e[3] for e in h["sorted"]]
+        if any(a > b for a, b in zip(ws, ws[1:])) or (not tbb and m["sort"] != "ok"):
+            return "rank %d: the candidate vector is not sorted by recorded weight after std::sort: %s" % (r, ws)
+    nph = len(md["ph"])
+    for r in range(P):
+        if sorted(hooks[r]["local"]) != list(range(nph)):
+            return "rank %d reported local minima for the phases %s, the model runs %d phases" % (r, sorted(hooks[r]["local"]), nph)
+    for k, (loc, glob) in enumerate(md["ph"]):
+        for r in range(P):
+            if tbb:
+                if loc[r] != "1":
+                    return "phase %d, rank %d: the reported local minimum %s is not acceptable (not 'not found iff no local candidate answers, else an answering local candidate of minimum weight')" % (k, r, hooks[r]["local"][k])
+            elif loc[r] != hooks[r]["local"][k]:
+                return "phase %d, rank %d: local minimum (exists, weight, edge indices) %s, the model computes %s" % (k, r, hooks[r]["local"][k], loc[r])
+        if glob == "ERR" or not glob[0]:
+            return "phase %d: the model's reduction delivers no cycle (%s)" % (k, glob)
+        if k >= len(cycles) or tuple(sorted(cycles[k])) != md["emit"][k]:
+            return "phase %d: rank 0 emitted %s, the reduction of the %s local minima along Boost's tree (ties to the right operand) delivers %s" % (
+                k, sorted(cycles[k]) if k < len(cycles) else None, "reported" if tbb else "model's", list(md["emit"][k]))
+    got = [tuple(sorted(cy)) for cy in cycles]
+    if got != md["emit"]:
+        return "rank 0 emitted %s, the reduction of the %s local minima along Boost's tree gives %s" % (got, "reported" if tbb else "model's", md["emit"])
+    tot = sum(g[1] for _, g in md["ph"])
+    if ret != tot:
+        return "rank 0 returned %s, the reduced minima weigh %d" % (ret, tot)
+    return None
 
 # --------------------------------------------------------------------------------------------------------------
 # case generation
@@ -177,11 +364,14 @@ def gen_cases(rng, tier):
 # judging
 # --------------------------------------------------------------------------------------------------------------
 class Judge:
-    def __init__(self, c, exe, refok, d8):
-        self.c, self.exe, self.refok, self.d8 = c, exe, refok, d8
+    def __init__(self, c, exe, refok, d8, exe13=None):
+        self.c, self.exe, self.refok, self.d8, self.exe13 = c, exe, refok, d8, exe13
+        self.picks = {}
         self.nviol = {}
         self.stats = {"signed_exact_fixed": 0, "signed_as_found_exact": 0, "known_d8": 0, "latent_d8": 0, "eord_differ": 0,
-                      "ref_cases": 0, "ref_distinct": 0, "hangs": 0}
+                      "ref_cases": 0, "ref_distinct": 0, "hangs": 0,
+                      "per_rank_runs_compared": 0, "per_rank_agree": 0, "per_rank_skipped_no_hook": 0, "per_rank_skipped_size": 0,
+                      "per_rank_ranks_compared": 0, "per_rank_local_minima_compared": 0}
         self.opts = {}
         self.refcache = {}
         self.lock = threading.Lock()
@@ -192,7 +382,65 @@ class Judge:
             self.nviol[kind] = self.nviol.get(kind, 0) + 1
             self.c.violation(why, rep, found)
 
-    def judge_batch(self, P, cases, results, tier, exact=True):
+    def per_rank(self, P, lines, parsed, traces, tier, replay_of):
+        """the four tree variants: every rank's chunk, rebuilt candidates, sort order and per-phase local minimum vs the model"""
+        import trees_common
+        maxn, maxm = (16, 48) if tier == "quick" else (24, 90)
+        todo = []
+        for i, (alg, g, res, rf, why, differ) in sorted(parsed.items()):
+            if alg == "signed": continue
+            tr = traces.get(i) if traces is not None else None
+            if not tr or not any(tr):
+                with self.lock: self.stats["per_rank_skipped_no_hook"] += 1
+                continue
+            if g[0] > maxn or len(g[1]) > maxm:
+                with self.lock: self.stats["per_rank_skipped_size"] += 1
+                continue
+            todo.append(i)
+        if not todo: return
+        # feedback vertex sets of the real greedy_fvs (pick oracle of the FVS builder)
+        need = sorted({gen.graph_tokens(parsed[i][1]) for i in todo if parsed[i][0].startswith("fvs")} - set(self.picks))
+        if need and self.exe13:
+            for gt, pk in zip(need, trees_common.fvs_picks(self.exe13, need)):
+                with self.lock: self.picks[gt] = pk
+        ml, meta = [], []
+        for i in todo:
+            alg, g, res, rf, why, differ = parsed[i]
+            t = lines[i].split(); scale = int(t[2]) if t[1] == "D" else 0
+            gt = gen.graph_tokens(g)
+            hooks = [parse_hook(tr_r, scale) for tr_r in traces[i]]
+            bad = next(("rank %d: %s" % (r, h["bad"]) for r, h in enumerate(hooks) if h["bad"]), None)
+            if not bad:
+                bad = next(("rank %d wrote no %s line" % (r, k.upper()) for r, h in enumerate(hooks) for k in ("chunk", "sorted") if h[k] is None), None)
+            picks = self.picks.get(gt) if alg.startswith("fvs") else []
+            if picks is None: bad = bad or "greedy_fvs of the real code failed on this graph"
+            if bad:
+                rep = replay_of(i, {"rank_lines": res, "hook_lines": traces[i], "theorem_or_correspondence": TREES_CORR})
+                self.report("per-rank", "%s with %d ranks: per-rank trace unusable: %s" % (ENTRY[alg], P, bad), rep, False); continue
+            ml.append(trees_model_line(alg, gt, rf[0].get("ROOTS", []), picks, P, hooks)); meta.append((i, hooks))
+        if not ml: return
+        mo = lib.run_model("treesmpi", ml, group=GROUP, timeout=1500)
+        for (i, hooks), line, out in zip(meta, ml, mo):
+            alg, g, res, rf, why, differ = parsed[i]
+            try:
+                ret, cycles = O.parse_alg_output(res[0])
+            except Exception:
+                continue
+            diff = compare_trees(alg, P, hooks, parse_trees_model(out), ret, cycles)
+            with self.lock:
+                self.stats["per_rank_runs_compared"] += 1; self.stats["per_rank_ranks_compared"] += P
+                self.stats["per_rank_local_minima_compared"] += P * len(hooks[0]["local"])
+                if not diff: self.stats["per_rank_agree"] += 1
+            if diff:
+                rep = replay_of(i, {"rank_lines": res, "hook_lines": traces[i], "model_case": line, "model": out[:3000],
+                                    "theorem_or_correspondence": TREES_CORR})
+                if why:      # the answer itself violates the property text: the failing input is already exhibited by the judge
+                    self.report("per-rank", "%s with %d ranks: %s — and rank 0's answer is wrong: %s" % (ENTRY[alg], P, diff, why), rep, True)
+                else:
+                    self.report("per-rank", "correspondence %s (P=%d) vs MpiTreesModel no longer checks: %s; rank 0's answer still satisfies the property text" %
+                                (ENTRY[alg], P, diff), rep, False)
+
+    def judge_batch(self, P, cases, results, tier, exact=True, traces=None):
         """cases: list of (line, graph, style); results from run_batch.  exact=False (several TBB threads per rank: ties depend on
         the schedule): answers are judged only; a wrong answer of the signed variant counts as D8 if the as-found model is wrong too"""
         c = self.c
@@ -282,6 +530,8 @@ class Judge:
                     self.stats["trees_mpi_accepted"] = self.stats.get("trees_mpi_accepted", 0) + st.get("accepted", 0)
         except ImportError:
             pass
+        # ---- the four tree-based MPI entry points, rank by rank (hook lines vs MpiTreesModel) -------------------------
+        self.per_rank(P, lines, parsed, traces, tier, replay_of)
         # ---- exact comparison of the signed variant with the models -------------------------------------------
         if todo_fixed:
             ml = [model_lines(gen.graph_tokens(parsed[i][1]), parsed[i][3], P) for i in todo_fixed]
@@ -376,8 +626,9 @@ def check(tier, seed):
     refok = X.have_ref() and c.step_model("ref")
     exe = c.harness(**HARNESS)
     d8 = next((f for f in lib.known_findings(PID) if f.get("id") == "D8"), None)
+    exe13 = c.harness(name="c13", srcs=["c13.cpp"])
     if ok and exe:
-        J = Judge(c, exe, refok, d8)
+        J = Judge(c, exe, refok, d8, exe13)
         check_redtree(c, exe, sorted(set(Ps + ([13] if tier == "quick" else [14, 16]))))
         corpus = [l for l in lib.corpus_cases(PID)]
         c.extra["corpus_cases"] = len(corpus)
@@ -399,11 +650,12 @@ def check(tier, seed):
             P, cases, tag, threads = b
             need = min(P, 16)
             for _ in range(need): sem.acquire()
+            traces = {}
             try:
-                res = run_batch(exe, P, [x[0] for x in cases], tag, wd, threads, stall=(90 if tier == "quick" else 150))
+                res = run_batch(exe, P, [x[0] for x in cases], tag, wd, threads, stall=(90 if tier == "quick" else 150), traces=traces)
             finally:
                 for _ in range(need): sem.release()
-            J.judge_batch(P, cases, res, tier, exact=(threads == 1))      # several TBB threads: schedule-dependent ties, judged only
+            J.judge_batch(P, cases, res, tier, exact=(threads == 1), traces=traces)      # several TBB threads: schedule-dependent ties, judged only
         with cf.ThreadPoolExecutor(max_workers=6) as ex:
             list(ex.map(work, sorted(batches, key=lambda b: -b[0])))
         c.extra.update(J.stats)
@@ -412,18 +664,30 @@ def check(tier, seed):
         elif d8 is not None and J.stats["eord_differ"] > 20:
             c.notes.append("known finding D8 is listed but did not show although the ranks' edge orders differed in %d cases: stale (fix applied?)" % J.stats["eord_differ"])
         c.extra["verified_checker_cases"] = J.stats["ref_cases"]
+        if J.stats["per_rank_runs_compared"] == 0 and J.stats["per_rank_skipped_no_hook"]:
+            c.notes.append("per-rank comparison of the tree variants SKIPPED: the working tree has no VERIF-MPITREES hook (pending/c04-hook-localmin.patch not applied); "
+                           "%d runs were judged on rank 0's answer and replayed through the sequential acceptance model only" % J.stats["per_rank_skipped_no_hook"])
     return c.finish(
         assumptions=["lock-step semantics of the collectives (MpiModel.run) stands for MPI; progress of the real runtime is observed by the watchdog only",
                      "boost::mpi::reduce combines along MpiModel.boost_reduce_tree (re-observed on every run for every P used); the theorems hold for every tree over the ranks",
                      "stride: ceil((double) total / P) equals the integer ceiling for total < 2^53",
                      "per-rank BFS root order and pointer order of edge descriptors are recovered from the run (ROOTS equal on all ranks is checked, EORD per rank is fed to the as-found model)",
                      "local tbb::parallel_reduce runs on one TBB thread in the exact comparison (= left-to-right fold); C04c is modulo the per-index search premise (MpiProofs3.signed_phase_premise)",
-                     "double weights are integer multiples of a power of two, sums below 2^53 (exact domain)"],
-        trusted_extra=["Open MPI 4.1.4 / Boost.MPI 1.83 runtime, mpiexec; harness/mpi/c04.cpp; ocaml/driver_c04.ml"],
+                     "double weights are integer multiples of a power of two, sums below 2^53 (exact domain)",
+                     "tree variants: every rank's ForestIndex is the same (ROOTS equal on all ranks is checked); std::sort's order among equal recorded weights is recovered per rank from the hook's SORTED line and "
+                     "validated by MpiTreesModel.mt_sort_Z (a permutation, no later element strictly lighter); greedy_fvs's pick oracle is recovered by running the real greedy_fvs (harness/c13.cpp)",
+                     "tree variants, TBB flavour: tbb::parallel_reduce is not modelled schedule by schedule here; C04c_result_*_tbb_mpi hold for every local lookup accepted by mt_rank_accept_tbb_Z and every reported "
+                     "local minimum of every rank and phase is checked against that relation",
+                     "the per-rank comparison needs the PARMCB_VERIF hook of pending/c04-hook-localmin.patch (switched on at run time by PARMCB_VERIF_MPI_TRACE, which only harness/mpi/c04.cpp sets); "
+                     "without it the tree variants are tied through rank 0's answer only"],
+        trusted_extra=["Open MPI 4.1.4 / Boost.MPI 1.83 runtime, mpiexec; harness/mpi/c04.cpp (redirects every rank's stderr to a file of its own); ocaml/driver_c04.ml "
+                       "(treesmpi: recovers each rank's arrangement as positions in the model's unsorted vector, feeds reported local minima to mt_trace_run_Z)"],
         explanation="C04a/C04b hold for every P >= 1 (and C04b for every per-rank order); C04c holds for the fixed code for all layouts and for the code as found only when the ranks' "
                     "orders agree (C04_layout_refuted exhibits D8 on a 4-vertex graph). This run executes the real entry points under mpiexec with deliberately different per-rank heaps, "
                     "requires every rank to finish and ranks != 0 to stay silent, judges rank 0's basis (Python judge + verified checker) and compares mcb_sva_signed_mpi exactly with the "
-                    "extracted model of the fixed code; a wrong answer is tolerated only as the listed known finding D8 and only if the as-found model predicts it exactly.")
+                    "extracted model of the fixed code; a wrong answer is tolerated only as the listed known finding D8 and only if the as-found model predicts it exactly. "
+                    "The four tree variants are premise-free too (Properties_C04_trees.v: exact per-rank model, C04c_local_collection, C04c_result_{fvs,iso}_trees[_tbb]_mpi) and are tied rank by rank: "
+                    "chunk, rebuilt candidate vector, sort order and the local minimum of every phase of EVERY rank against the extracted model (see per_rank_* counters).")
 
 
 # --------------------------------------------------------------------------------------------------------------
@@ -434,7 +698,8 @@ def replay(path):
     if exe is None:
         print("harness does not build:", err); print("VIOLATION property=%s replay=%s" % (PID, path)); return 1
     P = int(r["P"]); batch = r["batch"]; idx = len(batch) - 1
-    res = run_batch(exe, P, batch, "replay", 240)
+    traces = {}
+    res = run_batch(exe, P, batch, "replay", 240, traces=traces)
     last = res[idx]
     print("P:", P); print("case:", batch[idx])
     bad = None
@@ -454,6 +719,24 @@ def replay(path):
         except Exception:
             bad = "no answer on rank 0"
         if not bad and any(f.get("RANK", [0, 0, "x"])[2] != "0" for f in rf[1:]): bad = "a rank other than 0 emitted cycles"
+        if t[0] != "signed" and not bad and traces.get(idx) and any(traces[idx]):
+            # per-rank comparison with MpiTreesModel (hook lines present)
+            import trees_common
+            scale = int(t[2]) if t[1] == "D" else 0
+            hooks = [parse_hook(x, scale) for x in traces[idx]]
+            picks = []
+            if t[0].startswith("fvs"):
+                exe13, _ = lib.build_cpp(name="c13", srcs=["c13.cpp"])
+                picks = trees_common.fvs_picks(exe13, [" ".join(t[4:])])[0] if exe13 else None
+            if picks is None or any(h["bad"] or h["chunk"] is None or h["sorted"] is None for h in hooks):
+                bad = "per-rank trace unusable"
+            else:
+                ml = trees_model_line(t[0], " ".join(t[4:]), rf[0].get("ROOTS", []), picks, P, hooks)
+                mo = lib.run_model("treesmpi", [ml], par=1, group=GROUP)[0]
+                for rk, x in enumerate(traces[idx]):
+                    for l in x: print("hook[%d]:" % rk, l[:200])
+                print("model(treesmpi):", mo[:1500])
+                bad = compare_trees(t[0], P, hooks, parse_trees_model(mo), ret, cycles)
         if t[0] == "signed" and not bad:
             fx, og = model_lines(" ".join(t[4:]), rf, P)
             m = lib.run_model("signedmpi_fixed", [fx], par=1, group=GROUP)[0]; print("model(fixed):", m)
